@@ -758,6 +758,11 @@ func (p *Process) onStateChange(state string) {
 	switch state {
 	case types.ProcessStateSkipped:
 		p.setExitCode(1)
+	case types.ProcessStateError:
+		// the command could not be started: report a failure to whoever waits for it
+		if p.getExitCode() == 0 {
+			p.setExitCode(1)
+		}
 	case types.ProcessStateRestarting:
 		fallthrough
 	case types.ProcessStateLaunching:
